@@ -93,6 +93,10 @@ def run(rep, tier):
     if ok:
         dn = nows(show(calls["setDouble"]["node"]["args"][0]))
         sn = nows(show(calls["setStr"]["node"]["args"][0]))
+        # maps filled by subscript stores, or initialised from a literal list of {key, value} pairs: read off the folded argument
+        for nm_, cal_ in ((dn, "setDouble"), (sn, "setStr")):
+            for k_, v_ in re.findall(r"\('pair', \"(\w+)\", ([\w\.]+)\)", str(calls[cal_]["args"][0])):
+                stores.setdefault(nm_, {})[k_] = v_
         ok = stores.get(dn, {}).get("Mass") == "%s.mass" % pn and stores.get(sn, {}).get("Name") == "%s.name" % pn
     rep.check(ok, "R16.2", "node-content", "node carries Mass (double) and Name (string) of the bead",
               "BeadStructure::BeadInfoToGraphNode_ builds the node from %s (setters %s): structures whose bead names or masses differ are not told apart" % (stores, sorted(calls)), b2g.loc(), sample=True)
@@ -113,7 +117,8 @@ def run(rep, tier):
             want_v = "BeadInfoToGraphNode_(this, %s.second)" % var
             in_loop_ = any(isinstance(g_[0], tuple) and g_[0] and g_[0][0] == "loop" and g_[0][1] == lps[0]["lid"] for g_ in e["guards"])
             inner_guards = [g_ for g_ in e["guards"] if not (isinstance(g_[0], tuple) and g_[0] and g_[0][0] == "loop") and "graphUpToDate" not in str(g_[0])]
-            okn = in_loop_ and not inner_guards and nows(e["target"]) == "graphnodes_[%s.first]" % var and nows(str(e["value"])) == nows(want_v)
+            key_v = nows(str(e["idx"][0])) if e.get("idx") else nows(e["target"])[len("graphnodes_["):-1]
+            okn = in_loop_ and not inner_guards and key_v == "%s.first" % var and nows(str(e["value"])) == nows(want_v)
             whyn = "vertex %s receives %s%s; required: the node built from that bead's own name and mass, for every bead" % (
                 e["target"], str(e["value"])[:100], (" under %s" % guard_strs(fig, inner_guards)) if inner_guards else "")
         rep.check(okn, "R16.2", "node-per-bead", "graphnodes_[id] = BeadInfoToGraphNode_(that bead) for every bead", "BeadStructure::InitializeGraph_: " + whyn +
